@@ -406,13 +406,18 @@ export class SchemaPrintingContext {
   constructor(options: SchemaPrintingContextOptions) {
     this.refPathTemplate = options.refPathTemplate;
     this.definitionContainerKey = options.definitionContainerKey;
-    this.collectedDefinitions = {};
-    this.inProgressDefinitions = {};
-    this.namedTypeSchemaOverrides = Object.fromEntries(
-      Object.entries(options.namedTypeSchemaOverrides ?? {}).map(([name, parser]) => [
-        name,
-        (parser as ParserFromRuntype)._runtype,
-      ]),
+    // keyed by type names, and `constructor`, `toString`, `valueOf` are valid type names: no
+    // prototype, so that a look-up only finds what was stored
+    this.collectedDefinitions = Object.create(null);
+    this.inProgressDefinitions = Object.create(null);
+    this.namedTypeSchemaOverrides = Object.assign(
+      Object.create(null),
+      Object.fromEntries(
+        Object.entries(options.namedTypeSchemaOverrides ?? {}).map(([name, parser]) => [
+          name,
+          (parser as ParserFromRuntype)._runtype,
+        ]),
+      ),
     );
   }
 
@@ -1778,7 +1783,7 @@ export class AnyOfDiscriminatedRuntype extends BaseRuntype {
     });
   }
   private getSchemaVariantRefs(ctx: SchemaContext): Array<{ key: string; ref: string }> {
-    const unionHash = this.hash({ seen: {} });
+    const unionHash = this.hash({ seen: Object.create(null) });
     return Object.entries(this.schemaMapping).map(([key, schema]) => ({
       key,
       ref: this.ensureSchemaVariantRef(schema, key, unionHash, ctx),
@@ -2476,7 +2481,7 @@ class ParserFromRuntype implements BeffParser<any> {
   schema(): JSONSchema7 {
     const ctx = {
       path: [],
-      seen: {},
+      seen: Object.create(null),
       mode: "flat" as const,
     };
     return this._runtype.schema(ctx);
@@ -2484,7 +2489,7 @@ class ParserFromRuntype implements BeffParser<any> {
   schemaWithContext(schemaPrintingContext: SchemaPrintingContext): JSONSchema7 {
     const ctx = {
       path: [],
-      seen: {},
+      seen: Object.create(null),
       mode: "contextual" as const,
       printingContext: schemaPrintingContext,
     };
@@ -2522,7 +2527,7 @@ class ParserFromRuntype implements BeffParser<any> {
   }
   hash(): number {
     const ctx = {
-      seen: {},
+      seen: Object.create(null),
     };
     return this._runtype.hash(ctx);
   }
